@@ -192,6 +192,19 @@ def main():
             if re.search(pat, rec.get("unit", "") + " " + rec.get("name", "")):
                 rec["bounded"] = why
                 break
+    if os.environ.get("PYVC_REPLAY_SELFTEST"):
+        seen_code = set()
+        for i, rec in enumerate(recs):
+            sc = rec.pop("selftest_scenario", None)
+            if sc is None or sc["code"] in seen_code:
+                continue
+            seen_code.add(sc["code"])
+            path, outcome = replay(prop, {"name": "selftest." + rec["name"], "function": rec.get("function"), "scenario": sc, "witness": {}}, i)
+            print(f"SELFTEST property={prop} obligation={rec['name']} status={outcome.get('status')} detail={str(outcome.get('detail') or outcome.get('stderr'))[:240]}")
+            try:
+                os.unlink(path)
+            except OSError:
+                pass
     refuted = [r for r in recs if r["verdict"] == "refuted"]
     undecided = [r for r in recs if r["verdict"] == "undecided"]
     discharged = [r for r in recs if r["verdict"] == "discharged"]
